@@ -1,7 +1,19 @@
 #!/bin/bash
-# Runs the repository's pinned test suite with the verification guard OFF (plain CMake build).
-set -e
-B=${B:-/repo/_build}
-cmake -G Ninja -S /repo -B "$B" >/dev/null
-cmake --build "$B" >/dev/null
-ctest --test-dir "$B" -j8 --timeout 900 "$@"
+# Runs the repository's pinned test suite with the verification guard OFF (plain CMake build,
+# no -DSOUNDSWALLOWER_VERIF).  B=<dir> selects the build directory (default /repo/_build);
+# REPO=<dir> the source tree.  Prints the ctest summary and the list of the 30 pinned tests
+# (from /root/.vp/BASELINE.json when present) that did not pass.
+REPO=${REPO:-/repo}
+B=${B:-$REPO/_build}
+cmake -G Ninja -S "$REPO" -B "$B" >/dev/null || exit 2
+T=$(sed -n '/^set(TESTS/,/)/p;/^set(TEST_EXECUTABLES/,/)/p' "$REPO/tests/CMakeLists.txt" | grep -o 'test_[a-z0-9_]*')
+ninja -C "$B" -k 0 soundswallower $T >/dev/null 2>&1
+ctest --test-dir "$B" -j8 --timeout 900 "$@" > "$B/ctest.out" 2>&1
+grep -E "tests passed|tests failed" "$B/ctest.out"
+PINNED="lcase1 lcase2 lcase3 strcmp1 strcmp2 strcmp3 test_acmod test_acmod_grow test_add_words test_bitvec test_byteorder test_ckd_alloc test_dict2pid test_dict test_endpointer test_err test_feat_fe test_feat_live test_fsg test_hash_iter test_jsgf test_listelem_alloc test_log_shifted test_ptm_mgau test_s3file test_subvq test_word_align ucase1 ucase2 ucase3"
+bad=0
+for t in $PINNED; do
+  grep -Eq "Test +#[0-9]+: $t \.+ +Passed" "$B/ctest.out" || { echo "PINNED TEST NOT PASSING: $t"; bad=1; }
+done
+[ $bad = 0 ] && echo "all 30 pinned tests pass"
+exit $bad
